@@ -92,8 +92,8 @@ func genC05(t *testing.T) {
 	for k := 0; k < nr; k++ {
 		r := common.RngN("c05", uint64(k))
 		st := c05Stages[r.IntN(len(c05Stages))]
-		ln := r.IntN(41)
-		cp := r.IntN(9)
+		ln := wide(r, 41, 100, 257)
+		cp := wide(r, 9, 16, 64, 300)
 		mode := "pure"
 		if st == "FMap" {
 			mode = "lift"
